@@ -322,6 +322,12 @@ func (p *Prog) origin(v ssa.Value) ssa.Value {
 		if k < 0 || k >= len(sites[0].Call.Args) {
 			return v
 		}
+		// inside a running enumeration the site the helper was entered from
+		// is known: the argument there is the origin
+		if site := p.ctxSiteOf(h); site != nil && k < len(site.Call.Args) {
+			v = site.Call.Args[k]
+			continue
+		}
 		// all sites must agree on the origin (same value, or same field load)
 		cand := sites[0].Call.Args[k]
 		for _, s := range sites[1:] {
@@ -332,6 +338,16 @@ func (p *Prog) origin(v ssa.Value) ssa.Value {
 		v = cand
 	}
 	return v
+}
+
+// ctxSiteOf: the innermost call of h on the virtual call stack, or nil.
+func (p *Prog) ctxSiteOf(h *ssa.Function) *ssa.Call {
+	for i := len(p.ctx) - 1; i >= 0; i-- {
+		if cl, ok := p.ctx[i].(*ssa.Call); ok && cl.Call.StaticCallee() == h {
+			return cl
+		}
+	}
+	return nil
 }
 
 func sameOrigin(a, b ssa.Value) bool {
